@@ -8,7 +8,7 @@ from harness import common
 ID = "C17"
 BOUNDS = {
     "quick": "worklists holding 0..3 records whose free text consists of symbolic Latin-1 characters (every length 0..3 per record, code points 32..255), written "
-             "by save() with a str or Path argument, by leaving the `with` block normally and by an exception, and twice in a row; a pre-existing file of "
+             "by save() with a str or Path argument, by leaving the `with` block normally and by an exception, twice in a row (after appending; after replacing a record by another of the same length; after re-entering the `with` block); a pre-existing file of "
              "0..6 symbolic bytes (longer and shorter than the new content); file names {x.gwl, X.GWL, x.txt, x, x.gwl.bak, gwl}; __enter__ on a non-empty "
              "worklist; str()/repr() of the worklist",
     "thorough": "records up to length 5, 4 records, pre-existing files up to 12 bytes",
@@ -25,7 +25,7 @@ NAMES = ["x.gwl", "X.GWL", "x.txt", "x", "x.gwl.bak", "gwl"]
 def shards(tier):
     L = 3 if tier == "quick" else 5
     out = []
-    for how in ("save-str", "save-path", "with", "with-exc", "twice"):
+    for how in ("save-str", "save-path", "with", "with-exc", "twice", "resave"):
         for nrec in range(0, 4 if tier == "quick" else 5):
             out.append(dict(part="write", how=how, nrec=nrec, L=L if nrec <= 2 else 1, pre=6 if tier == "quick" else 12))
     out.append(dict(part="names", concrete=True))
@@ -157,6 +157,35 @@ def _scenario(ctx, p, ns, c, part, tmp):
             c["extra"] = ["B;"]
         c["text"] = (str(wl), repr(wl))
         return wl
+    if how == "resave":
+        # history: the same worklist object was saved to the same path before, with other records of the same number and total length
+        via = ctx.choose("via", ["setitem", "reenter", "setitem-with"])
+        c["via"] = via
+        c["extra"] = ["W2;"]
+        if via == "setitem":
+            wl = ns.BaseWorklist()
+            for k, b in recs:
+                wl.append(_render(k, b))
+            wl.append("W1;")
+            wl.save(path)
+            wl[-1] = "W2;"
+            wl.save(path)
+        else:
+            wl = ns.BaseWorklist(path)
+            with wl as w:
+                for k, b in recs:
+                    w.append(_render(k, b))
+                w.append("W1;")
+                if via == "setitem-with":
+                    w.save(path)
+                    w[-1] = "W2;"
+            if via == "reenter":
+                with wl as w:
+                    for k, b in recs:
+                        w.append(_render(k, b))
+                    w.append("W2;")
+        c["text"] = (str(wl), repr(wl))
+        return wl
     wl = ns.BaseWorklist(path)
     try:
         with wl as w:
@@ -265,4 +294,4 @@ def judge(ctx, p, outcome):
 
 def describe(ctx, p, outcome):
     c = ctx.ctx
-    return f"  {p} name={c.get('name')} old={c.get('old')} records={[(k, str(b)) for k, b in c.get('recs', [])]}\n  file bytes={c.get('files')}\n  outcome={outcome[0]} {outcome[1] if outcome[0] == 'exc' else ''}"
+    return f"  {p} via={c.get('via')} name={c.get('name')} old={c.get('old')} records={[(k, str(b)) for k, b in c.get('recs', [])]}\n  file bytes={c.get('files')}\n  outcome={outcome[0]} {outcome[1] if outcome[0] == 'exc' else ''}"
